@@ -107,6 +107,8 @@ def run_relabel(rs, ctx, j):
 def run_perm(rs, ctx, j):
     l, p = PERM_COMBOS[j % len(PERM_COMBOS)]
     cfg = gen.gen_cfg(rs, l, p, labels=gen.pick(rs, ["int", "str", "float"]), n_arms=int(rs.integers(2, 5)))
+    if "scale" in cfg["lp"]:
+        cfg["lp"]["scale"] = False
     nf = int(gen.pick(rs, [1, 2, 3]))
     n = int(rs.integers(8, 31))
     data = gen.gen_batch(rs, cfg, cfg["arms"], n, nf)
@@ -142,6 +144,8 @@ def run_perm(rs, ctx, j):
 def run_law(rs, ctx, j):
     kind = ["eg", "ucb", "sm", "lingreedy"][j % 4]
     cfg = gen.gen_cfg(rs, kind, "none", labels=gen.pick(rs, ["int", "str", "float"]), n_arms=int(rs.integers(2, 5)), deterministic=True)
+    if "scale" in cfg["lp"]:
+        cfg["lp"]["scale"] = False
     nf = 2
     n = int(rs.integers(2 * len(cfg["arms"]), 25))
     data = gen.gen_batch(rs, cfg, cfg["arms"], n, nf)
